@@ -178,6 +178,145 @@ def translate_pulseq():
         return text, f'fallback: {e}'
 
 
+# ---- Rotation kernels: the component formulas of `_compose_quaternions_single` and `_quaternion_to_matrix` ----------------
+# Translated over any scalar type with + - * and negation; a tensor whose last axis has a fixed small length is a list of
+# components (`p[3]`, `torch.stack((..), 0)`, `x.unbind(-1)`, `torch.linalg.cross(p[:3], q[:3])` by its definition).
+ROT_SITES = [
+    dict(name='rot_compose', file='data/Rotation.py', func=(None, '_compose_quaternions_single'), params={'p': 4, 'q': 4}, out=4,
+         fallback='M.Q.mul ⟨p_0, p_1, p_2, p_3⟩ ⟨q_0, q_1, q_2, q_3⟩'),
+    dict(name='rot_to_matrix', file='data/Rotation.py', func=(None, '_quaternion_to_matrix'), params={'quaternion': 4}, out=9,
+         fallback='M.Q.toMat ⟨quaternion_0, quaternion_1, quaternion_2, quaternion_3⟩'),
+]
+SITE_PROPS['rot_compose'] = 'C13'
+SITE_PROPS['rot_to_matrix'] = 'C13'
+SITE_ALSO['rot_compose'] = ['C12']
+SITE_ALSO['rot_to_matrix'] = ['C12']
+_ROT_TYPES = {4: 'M.Q K', 9: 'M.Mat3 K'}
+
+
+def _rexpr(node, env, vecs):
+    U = py2lean.Untranslatable
+    if isinstance(node, ast.Constant) and isinstance(node.value, int) and not isinstance(node.value, bool) and 0 <= node.value <= 2:
+        return f'({node.value} : K)'
+    if isinstance(node, ast.Name):
+        if node.id in env:
+            return env[node.id]
+        raise U(f'name {node.id}')
+    if isinstance(node, ast.Subscript) and isinstance(node.value, ast.Name) and node.value.id in vecs \
+            and isinstance(node.slice, ast.Constant) and isinstance(node.slice.value, int):
+        comp = vecs[node.value.id]
+        i = node.slice.value
+        if not -len(comp) <= i < len(comp):
+            raise U(f'index {i} out of range')
+        return comp[i]
+    if isinstance(node, ast.UnaryOp) and isinstance(node.op, ast.USub):
+        return f'(-{_rexpr(node.operand, env, vecs)})'
+    if isinstance(node, ast.BinOp) and type(node.op) in (ast.Add, ast.Sub, ast.Mult):
+        op = {ast.Add: '+', ast.Sub: '-', ast.Mult: '*'}[type(node.op)]
+        return f'({_rexpr(node.left, env, vecs)} {op} {_rexpr(node.right, env, vecs)})'
+    if isinstance(node, ast.Call) and isinstance(node.func, ast.Attribute) and node.func.attr == 'square' and not node.args and not node.keywords:
+        x = _rexpr(node.func.value, env, vecs)
+        return f'({x} * {x})'
+    raise U(f'expression {ast.unparse(node)[:50]}')
+
+
+def _first3(node, vecs):
+    """`x[:3]` of a known component list"""
+    if isinstance(node, ast.Subscript) and isinstance(node.value, ast.Name) and node.value.id in vecs and isinstance(node.slice, ast.Slice) \
+            and node.slice.lower is None and node.slice.step is None and isinstance(node.slice.upper, ast.Constant) and node.slice.upper.value == 3:
+        return vecs[node.value.id][:3]
+    raise py2lean.Untranslatable(f'expected x[:3], got {ast.unparse(node)[:40]}')
+
+
+def _stack_elts(call, env, vecs):
+    """`torch.stack((e0, .., *(..)), d)` of scalars: the list of component expressions"""
+    U = py2lean.Untranslatable
+    if not (isinstance(call, ast.Call) and ast.unparse(call.func) == 'torch.stack' and call.args and isinstance(call.args[0], ast.Tuple)):
+        raise U('not torch.stack of a tuple')
+    dim = call.args[1] if len(call.args) > 1 else next((k.value for k in call.keywords if k.arg == 'dim'), None)
+    if dim is not None and ast.unparse(dim) not in ('0', '-1'):
+        raise U(f'stack dim {ast.unparse(dim)}')
+    elts = []
+    for e in call.args[0].elts:
+        if isinstance(e, ast.Starred):
+            if not isinstance(e.value, ast.Tuple):
+                raise U('starred non-tuple')
+            elts += list(e.value.elts)
+        else:
+            elts.append(e)
+    return [_rexpr(e, env, vecs) for e in elts]
+
+
+def translate_rot_site(site):
+    name = site['name']
+    sig = ' '.join(f'({p}_{i} : K)' for p, n in site['params'].items() for i in range(n))
+    typ = _ROT_TYPES[site['out']]
+    U = py2lean.Untranslatable
+    try:
+        tree = ast.parse((SRC / site['file']).read_text())
+        fn = _find(tree, *site['func'])
+        if [a.arg for a in fn.args.args] != list(site['params']):
+            raise U(f'parameters {[a.arg for a in fn.args.args]}')
+        env, vecs, lets, ret = {}, {p: [f'{p}_{i}' for i in range(n)] for p, n in site['params'].items()}, [], None
+
+        def bind_vec(target, comps):
+            names = [f'{target}_{i}' for i in range(len(comps))]
+            lets.extend(f'let {n} : K := {c}' for n, c in zip(names, comps))
+            vecs[target] = names
+            env.pop(target, None)
+
+        for st in fn.body:
+            if isinstance(st, ast.Expr) and isinstance(st.value, ast.Constant):
+                continue
+            if isinstance(st, ast.Return):
+                if not (isinstance(st.value, ast.Name) and st.value.id in vecs and len(vecs[st.value.id]) == site['out']):
+                    raise U(f'return {ast.unparse(st.value)[:40]}')
+                ret = '⟨' + ', '.join(vecs[st.value.id]) + '⟩'
+                break
+            if not (isinstance(st, ast.Assign) and len(st.targets) == 1):
+                raise U(f'statement {type(st).__name__}')
+            tgt, val = st.targets[0], st.value
+            if isinstance(tgt, ast.Tuple):  # a, b, c, d = x.unbind(-1)
+                if not (isinstance(val, ast.Call) and isinstance(val.func, ast.Attribute) and val.func.attr == 'unbind'
+                        and isinstance(val.func.value, ast.Name) and val.func.value.id in vecs and [ast.unparse(a) for a in val.args] == ['-1']
+                        and len(tgt.elts) == len(vecs[val.func.value.id]) and all(isinstance(e, ast.Name) for e in tgt.elts)):
+                    raise U(f'tuple assignment {ast.unparse(st)[:50]}')
+                for e, c in zip(tgt.elts, vecs[val.func.value.id]):
+                    env[e.id] = c
+                    vecs.pop(e.id, None)
+                continue
+            if not isinstance(tgt, ast.Name):
+                raise U('assignment target')
+            if isinstance(val, ast.Call) and ast.unparse(val.func) == 'torch.linalg.cross' and len(val.args) == 2 and not val.keywords:
+                a, b = _first3(val.args[0], vecs), _first3(val.args[1], vecs)
+                bind_vec(tgt.id, [f'(({a[1]} * {b[2]}) - ({a[2]} * {b[1]}))', f'(({a[2]} * {b[0]}) - ({a[0]} * {b[2]}))',
+                                  f'(({a[0]} * {b[1]}) - ({a[1]} * {b[0]}))'])
+                continue
+            inner = val
+            if isinstance(val, ast.Call) and isinstance(val.func, ast.Attribute) and val.func.attr == 'reshape':
+                # row-major (.., 3, 3) view of nine stacked entries
+                if [ast.unparse(a) for a in val.args[-2:]] != ['3', '3'] or val.keywords:
+                    raise U('reshape other than (..., 3, 3)')
+                inner = val.func.value
+            if isinstance(inner, ast.Call) and ast.unparse(inner.func) == 'torch.stack':
+                comps = _stack_elts(inner, env, vecs)
+                if inner is not val and len(comps) != 9:
+                    raise U('reshape of other than nine entries')
+                bind_vec(tgt.id, comps)
+                continue
+            lets.append(f'let {py2lean._lean_name(tgt.id)} : K := {_rexpr(val, env, vecs)}')
+            env[tgt.id] = py2lean._lean_name(tgt.id)
+            vecs.pop(tgt.id, None)
+        if ret is None:
+            raise U('no return')
+        body = '\n  '.join(lets + [ret])
+        return (f'/-- translated from `{site["file"]}:{fn.name} (line {fn.lineno})` -/\ndef {name} {sig} : {typ} :=\n  {body}\n'
+                f'def {name}_translated : Bool := true'), 'translated'
+    except (U, OSError, SyntaxError) as e:
+        return (f'/-- FALLBACK (source outside the translatable fragment: {str(e)[:100]}): the hand-written model -/\n'
+                f'def {name} {sig} : {typ} :=\n  {site["fallback"]}\ndef {name}_translated : Bool := false'), f'fallback: {e}'
+
+
 def _find(tree, cls, func):
     scope = tree
     if cls is not None:
@@ -222,7 +361,7 @@ def translate_site(site):
 
 def generate():
     out = ['import Mrpro.Model.Index', 'import Mrpro.Model.Ops', 'import Mrpro.Model.KDataOps',
-           'import Mrpro.Model.SrcModel', 'import Mrpro.Model.Signal', 'import Mrpro.Model.Load', '',
+           'import Mrpro.Model.SrcModel', 'import Mrpro.Model.Signal', 'import Mrpro.Model.Load', 'import Mrpro.Model.Rotation', '',
            '/-! GENERATED by harness/translate_src.py from /repo/src on every check run. Do not edit. -/', '',
            'namespace M.Src', '']
     status = {}
@@ -239,7 +378,13 @@ def generate():
         text, st = translate_float_site(site)
         out += [text, '']
         status['sig_' + site['name']] = st
-    out += ['end Signal', '', 'end M.Src', '']
+    out += ['end Signal', '', '/-! Rotation kernels, component-wise -/', 'section Rot',
+            'variable {K : Type} [Add K] [Sub K] [Mul K] [Neg K] [OfNat K 2]', '']
+    for site in ROT_SITES:
+        text, st = translate_rot_site(site)
+        out += [text, '']
+        status[site['name']] = st
+    out += ['end Rot', '', 'end M.Src', '']
     return '\n'.join(out), status
 
 
